@@ -33,6 +33,7 @@ type SpecCtx struct {
 	entryCtx *SpecCtx // loop invariants: the state on entry to the loop, for entry(e)
 	sides  *[]*Term // typing facts of memory cells read while evaluating
 	assume bool     // the formula being evaluated sits in an assumed (positive-hypothesis) position
+	pkg    *ssa.Package // package whose constants and variables unqualified names refer to
 	clamp  bool     // recursive spec bodies: integer cells are clamped into their type's range
 	guards []*Term  // antecedents on the path from the clause root (for lazy instantiation)
 	guard  *Term    // reachability guard under which the clause is assumed
@@ -138,8 +139,18 @@ func (c *SpecCtx) eval(e *Expr) SV {
 				return c.reload(v)
 			}
 		}
-		if k, ok := c.tr.eng.constant(c.tr.fn, e.Name); ok {
+		pkg := c.pkg
+		if pkg == nil && c.tr.fn != nil {
+			pkg = c.tr.fn.Pkg
+		}
+		if k, ok := c.tr.eng.constantIn(pkg, e.Name); ok {
 			return mathInt(IntB(k))
+		}
+		if pkg != nil {
+			if g, ok := pkg.Members[e.Name].(*ssa.Global); ok {
+				pt := g.Type().Underlying().(*types.Pointer)
+				return c.loadSVLazy(Int(c.tr.eng.globalID(g)), Int(0), pt.Elem())
+			}
 		}
 		c.fail(e, "unknown name %q", e.Name)
 	case "old":
@@ -199,10 +210,9 @@ func (c *SpecCtx) loadSV(obj, off *Term, T types.Type) SV {
 		// large aggregate: keep address only
 		return SV{T: T, Addr: &[2]*Term{obj, off}}
 	}
-	arr := Select(c.st.Mem, obj)
 	out := SV{T: T, L: make([]*Term, lay.N()), Addr: &[2]*Term{obj, off}}
 	for i, lf := range lay.Leaves {
-		out.L[i] = leafOfCell(lf, Select(arr, Add(off, Int(int64(i)))))
+		out.L[i] = leafOfCell(lf, readCell(c.st.Mem, obj, Add(off, Int(int64(i))), leafTag(lf)))
 		if c.clamp {
 			// total, well-behaved value whatever the memory holds; equal to the cell for
 			// well-typed memory
@@ -248,6 +258,9 @@ func (c *SpecCtx) field(e *Expr, x SV, name string) SV {
 		c.fail(e, "field %s of untyped value", name)
 	}
 	obj, index, indirect := types.LookupFieldOrMethod(x.T, true, nil, name)
+	if obj == nil && c.pkg != nil {
+		obj, index, indirect = types.LookupFieldOrMethod(x.T, true, c.pkg.Pkg, name)
+	}
 	if obj == nil {
 		// unexported field: need the package
 		pkg := c.tr.fn.Pkg
@@ -467,6 +480,63 @@ func (c *SpecCtx) callBuiltin(e *Expr) SV {
 		n.assume = c.assume
 		n.bound = c.bound
 		return n.eval(e.Args[0])
+	case "be": // big-endian value of a byte slice (same symbol as the SetBytes model)
+		x := c.eval(e.Args[0])
+		if x.T == nil || !isByteSlice(x.T) {
+			c.fail(e, "be(): byte slice expected")
+		}
+		arr := Select(c.st.Mem, x.L[0])
+		if k := x.L[2].IntConst(); k != nil && k.IsInt64() && k.Int64() <= 80 {
+			n := int(k.Int64())
+			var parts []*Term
+			for i := 0; i < n; i++ {
+				b := readCell(c.st.Mem, x.L[0], Add(x.L[1], Int(int64(i))), leafTag(Leaf{K: LInt, B: types.Typ[types.Uint8]}))
+				c.side(And(Le(Int(0), b), Le(b, Int(255))))
+				parts = append(parts, Mul(b, Pow2(uint(8*(n-1-i)))))
+			}
+			if len(parts) == 0 {
+				return mathInt(Int(0))
+			}
+			return mathInt(Add(parts...))
+		}
+		c.tr.vc.DeclareUF("bebytes", []Sort{SArr, SInt, SInt}, SInt)
+		u8 := leafTag(Leaf{K: LInt, B: types.Typ[types.Uint8]})
+		arr = Select(readThrough(c.st.Mem, x.L[0], u8, 0), x.L[0])
+		return mathInt(App("bebytes", SInt, arr, x.L[1], x.L[2]))
+	case "bigval": // the mathematical value of a big.Int / Number (value or pointer)
+		x := c.eval(e.Args[0])
+		var obj, off *Term
+		if x.T != nil {
+			if _, ok := x.T.Underlying().(*types.Pointer); ok {
+				obj, off = x.L[0], x.L[1]
+			}
+		}
+		if obj == nil {
+			if x.Addr == nil {
+				c.fail(e, "bigval(): not a big.Int location")
+			}
+			obj, off = x.Addr[0], x.Addr[1]
+		}
+		return mathInt(Select(Select(c.st.Mem, obj), off))
+	case "locked", "lockcount": // ghost lock counter of a mutex (value or pointer)
+		x := c.eval(e.Args[0])
+		var obj, off *Term
+		if x.T != nil {
+			if _, ok := x.T.Underlying().(*types.Pointer); ok {
+				obj, off = x.L[0], x.L[1]
+			}
+		}
+		if obj == nil {
+			if x.Addr == nil {
+				c.fail(e, "locked(): not a mutex location")
+			}
+			obj, off = x.Addr[0], x.Addr[1]
+		}
+		cnt := Select(Select(c.st.Locks, obj), off)
+		if e.Name == "lockcount" {
+			return mathInt(cnt)
+		}
+		return mathBool(Gt(cnt, Int(0)))
 	case "fresh": // allocated during the call / since entry
 		x := c.eval(e.Args[0])
 		return mathBool(And(Ge(x.L[0], c.old.Alloc), Lt(x.L[0], c.st.Alloc)))
@@ -478,6 +548,26 @@ func (c *SpecCtx) callBuiltin(e *Expr) SV {
 		return SV{Arr: true, L: []*Term{Select(c.st.Mem, x.L[0])}}
 	case "bool2int":
 		return mathInt(Ite(c.evalBool(e.Args[0]), Int(1), Int(0)))
+	case "nfeq": // a == b, proved through polynomial normalisation with div-atoms (see poly.go)
+		a, b := c.evalInt(e.Args[0]), c.evalInt(e.Args[1])
+		if c.assume {
+			return mathBool(Eq(a, b))
+		}
+		x := Sub(a, b)
+		k, rest, ok, why := modWitness(x, new(big.Int).Lsh(big.NewInt(1), 4096), c.tr.top.monoDefs)
+		_ = k
+		if !ok {
+			c.tr.note("normal-form tactic failed: " + why)
+			return mathBool(Eq(a, b))
+		}
+		// with a modulus larger than every coefficient K is empty and Rest is the whole
+		// normal form: Rest = 0 needs only the ranges of the div terms
+		c.tr.vc.pendingIdentity = append(c.tr.vc.pendingIdentity, Eq(x, rest))
+		return mathBool(Eq(rest, Int(0)))
+	case "xor", "bitor", "bitand": // the engine's uninterpreted bit operations (same symbols as the code's)
+		name := map[string]string{"xor": "bxor", "bitor": "bor", "bitand": "band"}[e.Name]
+		c.tr.vc.DeclareUF(name, []Sort{SInt, SInt}, SInt)
+		return mathInt(App(name, SInt, c.evalInt(e.Args[0]), c.evalInt(e.Args[1])))
 	}
 	c.fail(e, "unknown function %s in contract", e.Name)
 	return SV{}
@@ -781,18 +871,18 @@ func (c *SpecCtx) evalLval(e *Expr) []cellRange {
 		if !ok {
 			c.fail(e, "modifies *x: x must be a pointer")
 		}
-		return []cellRange{{Obj: p.L[0], Lo: p.L[1], Hi: Add(p.L[1], Int(int64(sizeOf(pt.Elem()))))}}
+		return []cellRange{{Obj: p.L[0], Lo: p.L[1], Hi: Add(p.L[1], Int(int64(sizeOf(pt.Elem())))), T: pt.Elem()}}
 	}
 	v := c.eval(e)
 	if v.Addr != nil {
-		return []cellRange{{Obj: v.Addr[0], Lo: v.Addr[1], Hi: Add(v.Addr[1], Int(int64(sizeOf(v.T))))}}
+		return []cellRange{{Obj: v.Addr[0], Lo: v.Addr[1], Hi: Add(v.Addr[1], Int(int64(sizeOf(v.T)))), T: v.T}}
 	}
 	if v.T == nil {
 		c.fail(e, "modifies: not a location: %s", e)
 	}
 	switch t := v.T.Underlying().(type) {
 	case *types.Pointer:
-		return []cellRange{{Obj: v.L[0], Lo: v.L[1], Hi: Add(v.L[1], Int(int64(sizeOf(t.Elem()))))}}
+		return []cellRange{{Obj: v.L[0], Lo: v.L[1], Hi: Add(v.L[1], Int(int64(sizeOf(t.Elem())))), T: t.Elem()}}
 	case *types.Slice:
 		es := sizeOf(t.Elem())
 		return []cellRange{{Obj: v.L[0], Lo: v.L[1], Hi: Add(v.L[1], Mul(v.L[2], Int(int64(es))))}}
@@ -811,6 +901,12 @@ func (tr *FnTr) calleeCtx(f *ssa.Function, args []Val, results []Val, st, old St
 }
 
 func (tr *FnTr) calleeCtxInfo(f *calleeInfo, args []Val, results []Val, st, old State) *SpecCtx {
+	c := tr.calleeCtxInfo0(f, args, results, st, old)
+	c.pkg = f.pkg
+	return c
+}
+
+func (tr *FnTr) calleeCtxInfo0(f *calleeInfo, args []Val, results []Val, st, old State) *SpecCtx {
 	names := map[string]SV{}
 	for i, p := range f.params {
 		if i < len(args) {
